@@ -13,7 +13,8 @@ class C08Filter:
        mode 'gen'  : returns a generator of k(uid) outputs  (uid, j, pid)
        mode 'value': returns one non-iterator value          (uid, 0, pid)
        Every processed item is logged to an O_APPEND side file (also items with zero outputs / raising items)."""
-    def __init__(self, mode, kmap, raising, side, jitter_seed, jitter_ms):
+    def __init__(self, mode, kmap, raising, side, jitter_seed, jitter_ms, exc_type="ValueError"):
+        self.exc_type = exc_type
         self.mode, self.kmap, self.raising, self.side = mode, dict(kmap), set(raising), side
         self.jitter_seed, self.jitter_ms = jitter_seed, jitter_ms
 
@@ -28,7 +29,8 @@ class C08Filter:
         _append(self.side, f"P {uid} {pid}")
         self._sleep(uid, "pre")
         if uid in self.raising:
-            raise ValueError(f"boom-{uid}")
+            import builtins
+            raise (getattr(builtins, self.exc_type, None) or InjectedFailure)(f"boom-{uid}")
         if self.mode == "value":
             return (uid, 0, pid)
         return self._gen(uid, pid)
